@@ -58,7 +58,11 @@ def _check_pairs(ctx, bm, atoms):
             else:
                 cut = PB.HYDROGEN_DISTANCE if nh == 1 else (PB.DISULFIDE_DISTANCE if (a.element == 'S' and b.element == 'S') else PB.DEFAULT_DISTANCE)
                 spec = lt(d2, cut * cut)
-            ctx.claim('bond-iff-distance-below-cutoff', spec if bonded else Not(spec), detail='%s-%s bonded=%s' % (a.element, b.element, bonded))
+            # elements whose symbol merely contains an 'H' (He, Hf, Hg, Ho, Hs) are counted as hydrogens by check_distance
+            # (key.count('H')); the statement does not define the criterion, so for them only the comparison with
+            # check_distance itself is claimed (DESIGN.md, observations)
+            if not any(e in ('He', 'Hf', 'Hg', 'Ho', 'Hs') for e in (a.element, b.element)):
+                ctx.claim('bond-iff-distance-below-cutoff', spec if bonded else Not(spec), detail='%s-%s bonded=%s' % (a.element, b.element, bonded))
     # a sulfur is flagged as bridged exactly when it is bonded to (at least one) other sulfur
     for a in atoms:
         if a.element == 'S':
